@@ -27,6 +27,9 @@ def run(tier, v):
                  deadlock=False, timeout=1800)
     vlib.tlc_must_pass(r, "ProfileMathCheck")
     states, trans = r.distinct, r.generated
+    negs = ["ProfileMath_neg_latewindow.cfg", "ProfileMath_neg_countplus2.cfg"]
+    for neg in negs:
+        vlib.tlc_must_fail(vlib.tlc("ProfileMathCheck", neg, deadlock=False, timeout=600), neg)
     # 2. conformance
     b = vlib.harness_build()
     d = vlib.scratch()
@@ -116,6 +119,7 @@ def run(tier, v):
         "concurrent_drains": len([r_ for r_ in rows if r_["via"] == "concurrent"]) + sum(len(r_["drains"]) for r_ in mrows),
         "trace_spec_states": tr.distinct,
         "design_tlc": "ProfileMathCheck: %d grid profiles, oracle window/count sanity + golden points" % states,
+        "negative_controls": negs,
         "exhaustive": False,
     }
     return "model_checking", cov, [
